@@ -165,6 +165,11 @@ def make_callables(shape, entered, partials=True):
                 p = functools.partial(f, *pargs, **pkw)
             except Exception:
                 continue
+            if npf == 1 and kwf is None:
+                try:
+                    out.append(('partial-of-method', functools.partial(inst.meth, *pargs), 'partial(obj.meth, <1 fixed>) of meth(self, %s)' % shape.params()))
+                except Exception:
+                    pass
             out.append(('partial', p, 'partial(f, %s) of def f(%s)' % (
                 ', '.join(['<%d fixed>' % npf] + (['%s=<fixed>' % kwf] if kwf else [])), shape.params())))
     return out
